@@ -50,6 +50,7 @@ Core Lean only.
 import Uniflow.Model.Value
 import Uniflow.Model.Group
 import Uniflow.Model.CodecNum
+import Uniflow.Model.CodecTime
 
 namespace Uniflow.Codec
 open Uniflow.Value
@@ -500,7 +501,10 @@ def leavesTime : List Leaf :=
   [ fun x => match x with
       | .int _ v => .ok (.time v 0)                        -- `time.UnixMilli(v).UTC()`
       | .uint _ _ => .unsupported                          -- `Integer` is the signed family only
-      | .str _ => .other 1                                 -- unmodelled conversion (RFC 3339)
+      | .str s => (match parseRFC3339 s with               -- `time.Parse(time.RFC3339, s)`: "Z" is UTC, another offset
+                   | some (ms, sub, off) =>                -- a fixed zone (assuming the process's Local zone is UTC)
+                     if inInt64 ms then .ok (.time ms (sub * 3 + (if off = 0 then 0 else 2))) else .other 1
+                   | none => .other 1)
       | .f64 b => (match intOfF64 b with                   -- `time.UnixMilli(int64(f)).UTC()`
                    | some i => if inInt64 i then .ok (.time i 0) else .other 1
                    | none => .other 1)
